@@ -277,21 +277,21 @@ pub fn edge_case(out: &mut Out, depth: u8, h: u64, dd: u8, tag: &str) {
         }
       }
     }
-    // corners and parts
-    let xy = |i: u64, j: u64| -> u64 { let mut x = 0u64; for k in 0..dd as u64 { x |= ((i >> k) & 1) << (2 * k); x |= ((j >> k) & 1) << (2 * k + 1); } lo | x };
-    let m = side - 1;
-    let want_c = [xy(0, 0), xy(m, 0), xy(m, m), xy(0, m)];
-    for k in 0..4 {
-      let c = catch(|| nested::internal_corner(h, dd, &card(k)));
-      out.rec(&format!("icorner {} {} {}", h, dd, [0, 2, 8, 6][k]), &opt_u64(c));
-      if c != Some(want_c[k]) { out.violation("C14:internal_corner", format!("{} corner={}", inp, k), want_c[k].to_string(), format!("{:?}", c)); }
-    }
-    for k in 0..4 {
-      let p = catch(|| nested::internal_edge_part(h, dd, &ord(k)));
-      out.rec(&format!("ipart {} {} {}", h, dd, [1, 3, 5, 7][k]), &match &p { Some(v) => list_u64(v), None => "panic".into() });
-      let want: Vec<u64> = (0..side).map(|t| match k { 0 => xy(t, 0), 1 => xy(0, t), 2 => xy(m, t), _ => xy(t, m) }).collect();
-      if p.as_ref().map(|x| x.to_vec()) != Some(want.clone()) { out.violation("C14:internal_edge_part", format!("{} part={}", inp, k), list_u64(&want[..want.len().min(8)]), format!("{:?}", p.as_ref().map(|x| x.len()))); }
-    }
+  }
+  // corners and parts (delta_depth = 0: every corner and every part is the cell itself)
+  let xy = |i: u64, j: u64| -> u64 { let mut x = 0u64; for k in 0..dd as u64 { x |= ((i >> k) & 1) << (2 * k); x |= ((j >> k) & 1) << (2 * k + 1); } lo | x };
+  let m = side - 1;
+  let want_c = [xy(0, 0), xy(m, 0), xy(m, m), xy(0, m)];
+  for k in 0..4 {
+    let c = catch(|| nested::internal_corner(h, dd, &card(k)));
+    out.rec(&format!("icorner {} {} {}", h, dd, [0, 2, 8, 6][k]), &opt_u64(c));
+    if c != Some(want_c[k]) { out.violation("C14:internal_corner", format!("{} corner={}", inp, k), want_c[k].to_string(), format!("{:?}", c)); }
+  }
+  for k in 0..4 {
+    let p = catch(|| nested::internal_edge_part(h, dd, &ord(k)));
+    out.rec(&format!("ipart {} {} {}", h, dd, [1, 3, 5, 7][k]), &match &p { Some(v) => list_u64(v), None => "panic".into() });
+    let want: Vec<u64> = (0..side).map(|t| match k { 0 => xy(t, 0), 1 => xy(0, t), 2 => xy(m, t), _ => xy(t, m) }).collect();
+    if p.as_ref().map(|x| x.to_vec()) != Some(want.clone()) { out.violation("C14:internal_edge_part", format!("{} part={}", inp, k), list_u64(&want[..want.len().min(8)]), format!("{:?}", p.as_ref().map(|x| x.len()))); }
   }
   // ---- external edge
   if deep > 29 { return; }
@@ -305,11 +305,12 @@ pub fn edge_case(out: &mut Out, depth: u8, h: u64, dd: u8, tag: &str) {
     for k in 0..4 { let e = s.get_edge(&ord(k)); if !e.is_empty() { parts.push(([1usize, 3, 5, 7][k], e.to_vec())); } }
     parts.sort_by_key(|p| p.0); parts });
   out.rec(&format!("estruct {} {} {}", depth, h, dd), &match &es { None => "panic".into(), Some(p) => { let mut s = String::new(); for (k, v) in p { s.push_str(&format!("{}:[{}] ", k, list_u64(v))); } if s.is_empty() { "-".into() } else { s.trim_end().to_string() } } });
-  if dd == 0 { return; }
-  // expected: cells of depth d+dd outside the cell adjacent to a descendant (neighbours at the deeper depth)
+  // expected: cells of depth d+dd outside the cell adjacent to a descendant (neighbours at the deeper depth);
+  // delta_depth = 0: the neighbours of the cell itself
   let ld = get_or_create(deep);
   let mut want: HashSet<u64> = HashSet::new();
-  if let Some(v) = &ie {
+  let ie0: Option<Box<[u64]>> = if dd == 0 { Some(vec![h].into_boxed_slice()) } else { ie };
+  if let Some(v) = &ie0 {
     for &c in v.iter() {
       if let Some(m) = catch(|| ld.neighbours(c, false)) { for x in m.values_vec() { if x >> (2 * dd as u32) != h { want.insert(x); } } }
     }
@@ -351,7 +352,7 @@ pub fn run_c14(out: &mut Out, rng: &mut Rng, thorough: bool) {
   let (dmax, ddmax) = if thorough { (4u8, 6u8) } else { (2u8, 4u8) };
   for depth in 0..=dmax {
     let nh = 12u64 << (2 * depth as u32);
-    for dd in 1..=ddmax { for h in 0..nh { edge_case(out, depth, h, dd, "exhaustive"); } }
+    for dd in 0..=ddmax { for h in 0..nh { edge_case(out, depth, h, dd, "exhaustive"); } }
   }
   for depth in 0..=29u8 {
     let cells = cell_classes(depth, rng, if thorough { 3 } else { 0 });
@@ -361,6 +362,7 @@ pub fn run_c14(out: &mut Out, rng: &mut Rng, thorough: bool) {
       // every class gets a small delta and a delta reaching depth 29 (if 2^dd <= 4096)
       let dd_small = dds[k % dds.len().min(4)];
       edge_case(out, depth, *h, dd_small, tag);
+      if k % 3 == 0 { edge_case(out, depth, *h, 0, "delta-depth-0"); }
       if k % (if thorough { 5 } else { 29 }) == 0 {
         let dd_big = *dds.last().unwrap();
         if dd_big <= 10 || thorough { edge_case(out, depth, *h, dd_big.min(if thorough { 12 } else { 10 }), "deep-delta"); }
